@@ -84,6 +84,7 @@ func c17Batch(ch func(int) int) []rc.Message {
 func c17Exec(rcx *RunCtx, sched *simrt.Tape, batch []rc.Message, sock bool, seg int, cuts []int64, lockstep bool, endAt int, trace bool, halfClose int) (map[int]c17Result, []Finding, *simrt.Result, int) {
 	res := map[int]c17Result{}
 	var findings []Finding
+	cutCalls, cutComplete := -1, 0
 	cfg := simrt.Config{Trace: trace, MaxSteps: 400000, Stick: 1}
 	splitReads := 0
 	r := simrt.Run(cfg, sched, func() {
@@ -110,6 +111,8 @@ func c17Exec(rcx *RunCtx, sched *simrt.Tape, batch []rc.Message, sock bool, seg 
 			}
 		}
 		base := c.Net.C2S.Consumed()
+		nrepBase := len(c.Mon.Rep.Frames)
+		callBase := len(fs.Calls)
 		var reqs []*FrameRec
 		if lockstep {
 			for i, m := range batch {
@@ -137,6 +140,12 @@ func c17Exec(rcx *RunCtx, sched *simrt.Tape, batch []rc.Message, sock bool, seg 
 			nf := len(c.Mon.Req.Frames)
 			c.SendRaw(stream)
 			if endAt >= 0 {
+				// (generic path: the bytes before the cut may arrive together
+				// with the EOF, which must not make them a whole message)
+				if !sock {
+					c.Net.C2S.EOFWithData = halfClose == 2
+					c.Net.C2S.CloseWrite() // at once: the receiver has not read anything yet
+				}
 				c.Close()
 			} else if halfClose > 0 && !sock {
 				c.Net.C2S.EOFWithData = halfClose == 2
@@ -196,6 +205,29 @@ func c17Exec(rcx *RunCtx, sched *simrt.Tape, batch []rc.Message, sock bool, seg 
 			if !c.HandleReturned {
 				findings = append(findings, Finding{Prop: "C17", Oracle: "no-connection-error", Key: "no-connection-error", Detail: fmt.Sprintf("the stream ended at byte %d inside a frame but Server.Handle did not return", endAt)})
 			}
+			// The partial frame is no frame to the monitor, so whatever was
+			// done for it shows as work nobody asked for: more replies than
+			// complete frames, or more backend calls than the complete frames
+			// account for in the whole, lock-step delivery.
+			// (an Rlerror for the partial frame is no delivery: a receiver
+			// may reject a frame on its header alone)
+			nr := 0
+			for _, fr := range c.Mon.Rep.Frames[nrepBase:] {
+				if fr.Type != rc.TypeRlerror {
+					nr++
+				}
+			}
+			if nr > complete {
+				findings = append(findings, Finding{Prop: "C17", Oracle: "truncated-message-delivered", Key: "truncated-message-delivered",
+					Detail: fmt.Sprintf("the stream ended at byte %d, after %d complete frames, yet %d requests were answered with success", endAt, complete, nr)})
+			}
+			ncalls := 0
+			for _, cl := range fs.Calls[callBase:] {
+				if cl.Method != "Close" {
+					ncalls++
+				}
+			}
+			cutCalls, cutComplete = ncalls, complete
 		}
 		w.Shutdown()
 		for _, f := range w.Findings {
@@ -205,6 +237,9 @@ func c17Exec(rcx *RunCtx, sched *simrt.Tape, batch []rc.Message, sock bool, seg 
 			c.Sock.Close()
 		}
 	})
+	if cutCalls >= 0 {
+		res[-1] = c17Result{reply: fmt.Sprint(cutComplete), calls: make([]string, cutCalls)}
+	}
 	return res, findings, r, splitReads
 }
 
@@ -245,8 +280,9 @@ func runC17(rcx *RunCtx) {
 	case 4:
 		seg = simnet.SegWhole // several frames in one read
 	case 5:
-		seg = simnet.SegRandom
+		seg = []int{simnet.SegRandom, simnet.SegWhole}[p.Choose(2)]
 		endAt = 1 + p.Choose(total-1)
+		halfClose = 1 + p.Choose(2)
 	case 6: // complete stream, then end of stream (with or without the final bytes in the same Read)
 		seg = []int{simnet.SegWhole, simnet.SegRandom, simnet.SegByte}[p.Choose(3)]
 		halfClose = 1 + p.Choose(2)
@@ -264,6 +300,18 @@ func runC17(rcx *RunCtx) {
 	rcx.Findings = append(rcx.Findings, f0...)
 	rcx.Findings = append(rcx.Findings, f1...)
 	rcx.Count("reads_or_splits", splits)
+	if cut, ok := got[-1]; ok {
+		// calls the complete frames make when delivered whole
+		var complete int
+		fmt.Sscan(cut.reply, &complete)
+		want := 0
+		for i := 0; i < complete; i++ {
+			want += len(ref[i].calls)
+		}
+		if len(cut.calls) > want {
+			rcx.Find("C17", "truncated-message-delivered", "calls", "the stream ended at byte %d over %s (end-of-stream mode %d), after %d complete frames that make %d backend calls when delivered whole; the backend saw %d calls", endAt, path, halfClose, complete, want, len(cut.calls))
+		}
+	}
 	if endAt < 0 {
 		for i := range batch {
 			a, b := ref[i], got[i]
@@ -286,7 +334,7 @@ func init() {
 		Desc: "stream segmentation independence on the io.Reader and the socket (recvmsg) receive paths",
 		Run:  runC17,
 		Quick: 48000, Thorough: 3000000, QuickSecs: 60, ThorSecs: 1500,
-		Rule:  "batches of 2-6 independent requests with and without payloads (Twrite 0..4000 bytes, Tread, Twalk 0-2 names, Tmkdir/Tsymlink with strings of 0..200 bytes, Tsetattr, Tgetattr with random masks, and well-delimited frames the server skips or rejects: unknown types with bodies of 0..3000 bytes, known types with short or inconsistent bodies) delivered as one byte stream cut into reads: single bytes, tape-chosen cuts, one or two planned cuts (aimed at offsets 1,4,6,7,8 and around the first frame boundary half of the time), several frames per read, streams ending at a tape-chosen offset, and complete streams whose end arrives as a separate (0, EOF) read or together with the final bytes (n, EOF); each through the generic io.Reader path (simnet) and a real AF_UNIX socket pair (vecnet recvmsg/iovec path), server and client as receivers. Oracle: per request, the reply and the backend calls with their arguments and payload bytes equal those of a whole, lock-step reference delivery; a stream ending inside a frame ends the connection with no reply and no backend call for the partial frame.",
+		Rule:  "batches of 2-6 independent requests with and without payloads (Twrite 0..4000 bytes, Tread, Twalk 0-2 names, Tmkdir/Tsymlink with strings of 0..200 bytes, Tsetattr, Tgetattr with random masks, and well-delimited frames the server skips or rejects: unknown types with bodies of 0..3000 bytes, known types with short or inconsistent bodies) delivered as one byte stream cut into reads: single bytes, tape-chosen cuts, one or two planned cuts (aimed at offsets 1,4,6,7,8 and around the first frame boundary half of the time), several frames per read, streams ending at a tape-chosen offset (the last bytes alone or together with the EOF), and complete streams whose end arrives as a separate (0, EOF) read or together with the final bytes (n, EOF); each through the generic io.Reader path (simnet) and a real AF_UNIX socket pair (vecnet recvmsg/iovec path), server and client as receivers. Oracle: per request, the reply and the backend calls with their arguments and payload bytes equal those of a whole, lock-step reference delivery; a stream ending inside a frame ends the connection with no reply and no backend call for the partial frame.",
 		Assume: []string{"requests of a batch touch disjoint fids and names, so concurrent handling cannot change their individual results"},
 		Real:   []string{"p9 recv path", "vecnet.Buffers.ReadFrom (generic and recvmsg paths)", "kernel socket pair (socket mode)", "p9.Server"},
 		Stub:   []string{"transport for the reply direction (simnet)", "backend tree (simfs)", "raw 9P peer (refcodec)"},
